@@ -772,9 +772,10 @@ PROBES_FEW = ['zz', '0', 1, 7, -1, -9]
 
 def drv_query(tier, seed):
   vals = _value_exprs(tier, seed, 100 if tier == 'quick' else 2000)
-  rec = Recorder('C10', 'KeyPath.query/get/exists on every node and on absent keys',
+  rec = Recorder('C10', 'KeyPath.query/get/exists (and Symbolic.sym_has/sym_get) on every node and on absent keys',
                  scope=f'{len(vals)} nested values (plain / symbolic / objects / dict+list subclasses / shared sub-objects; dict keys from {len(DKEYS)} tricky strings and ints); '
-                       f'every node path + {len(PROBES)} probe keys below every node')
+                       f'every node path + {len(PROBES)} probe keys below every node; {len(_special_exprs())} values whose nodes hold unusual values (MISSING_VALUE placeholders / unbound fields of '
+                       'partial objects and dicts, falsy leaves, NaN, exceptions, objects with an unusual ==); get / sym_get with 5-7 kinds of default; sym_has / sym_get on symbolic roots')
   chk = _Chk(rec)
   ns = _real_ns()
   special = set(f for _, f, _ in SPECIAL_LEAVES) | {'partial-obj', 'partial-dict'}
@@ -807,7 +808,7 @@ def drv_query(tier, seed):
         dd = dflts + ([('equal-to-the-node', type(node)(node), 'type(p.query(root))(p.query(root))')] if type(node) in (list, dict) else [])
         for dn, dv, dsrc in dd:
           g = _out(p.get, root, dv) if dn != 'none' else _out(p.get, root)
-          chk(f'get.node.default={dn}/{cls}', (expr, path), g[0] == 'ok' and g[1] is node, lambda: f'get(root, {dsrc}) -> {g}, want the node {node!r}',
+          chk(f'get.node/default={dn}', (expr, path), g[0] == 'ok' and g[1] is node, lambda: f'get(root, {dsrc}) -> {g}, want the node {node!r}',
               lambda: _pre(expr + dsrc) + f'root = {expr}\np = pg.KeyPath({lp!r})\nassert p.get(root, {dsrc}) is p.query(root)')
       # the symbolic root offers the same lookups as methods (checked where the KeyPath methods
       # are right: a defect of those is reported once).
@@ -852,8 +853,14 @@ def drv_query(tier, seed):
           # an absent address yields the very default, whatever the default is.
           for dn, dv, dsrc in (dflts if full and k == 'zz' else ()):
             g = _out(q.get, root, dv) if dn != 'none' else _out(q.get, root)
-            chk(f'get.absent.default={dn}/{kind}', (expr, path, k), g[0] == 'ok' and g[1] is dv, lambda: f'get(root, {dsrc}) -> {g}, want the default',
+            chk(f'get.absent/default={dn}', (expr, path, k), g[0] == 'ok' and g[1] is dv, lambda: f'get(root, {dsrc}) -> {g}, want the default',
                 lambda: _pre(expr + dsrc) + f'root = {expr}\np = pg.KeyPath({lp + [k]!r})\nd = {dsrc}\nassert p.get(root, d) is d')
+          if sym_root and full and k == 'zz':
+            for dn, dv, dsrc in dflts + [('missing-value-tuple', (pg.MISSING_VALUE,), '(pg.MISSING_VALUE,)')]:
+              if dn != 'none':
+                g = _out(root.sym_get, q, dv)
+                chk(f'sym_get.absent/default={dn}', (expr, path, k), g[0] == 'ok' and g[1] is dv, lambda: f'sym_get(path, {dsrc}) -> {g}, want the default',
+                    lambda: _pre(expr + dsrc) + f'root = {expr}\np = pg.KeyPath({lp + [k]!r})\nd = {dsrc}\nassert root.sym_get(p, d) is d')
           if sym_root and (full or k == 'zz'):
             g1, g2, g3 = _out(root.sym_has, q), _out(root.sym_get, q, _SENTINEL), _out(root.sym_get, q)
             chk(f'sym_has-sym_get.absent/{kind}/{kc}', (expr, path, k), g1 == ('ok', False) and g2[0] == 'ok' and g2[1] is _SENTINEL and g3 == ('exc', 'KeyError'),
@@ -1406,7 +1413,10 @@ def drv_flatten(tier, seed):
       for nm, form in forms:
         for flag in (True, False):
           c = _out(pg.utils.canonicalize, form, flag)
-          chk(f'canonicalize-inverts-flatten/{cls}', (expr, nm, flag), c[0] == 'ok' and _deep_same(c[1], v), lambda: f'canonicalize({form!r}, {flag}) -> {c}, want {v!r}',
+          # (entry order / partial flattening are input classes of their own, whatever the leaves.)
+          cid = {'flat': f'canonicalize-inverts-flatten/{cls}', 'flat-reversed': 'canonicalize.entry-order-immaterial/unusual-leaves',
+                 'partially-flattened': 'canonicalize.partially-flattened/unusual-leaves'}[nm]
+          chk(cid, (expr, nm, flag), c[0] == 'ok' and _deep_same(c[1], v), lambda: f'canonicalize({form!r}, {flag}) -> {c}, want {v!r}',
               lambda: w0 + f'form = {_src(form)}\nassert repr(pg.utils.canonicalize(form, {flag})) == repr(v)')
     chk(f'flatten.argument-unchanged/{cls}', expr, _deep_same(v, eval(expr, dict(fns))), 'flatten/canonicalize modified the input',  # pylint: disable=eval-used
         lambda: w0 + f'pg.utils.flatten(v, False); assert repr(v) == repr({expr})')
